@@ -258,6 +258,20 @@ enum C {
     NuLlParallel,
     NuSkippedReach,
     NuNotRepresentable,
+    RouteCalls,
+    RouteBitIdentical,
+    RouteDiffer,
+    RouteClNone,
+    RouteClTouch,
+    RouteClIntersect,
+    RouteCcNone,
+    RouteCcSame,
+    RouteCcTouch,
+    RouteCcIntersect,
+    RouteLlParallel,
+    RouteLlPoint,
+    RoutePos,
+    RouteContains,
     N,
 }
 
@@ -347,6 +361,20 @@ const CNAMES: [&str; C::N as usize] = [
     "nu_ll_exact_parallel",
     "nu_skipped_reaching_beyond_1e3",
     "nu_not_formed_a_fed_number_is_not_an_exact_f64",
+    "route_calls_with_an_operand_not_built_by_new_or_between",
+    "route_results_bit_identical_to_the_judged_new_route_result",
+    "route_results_differing_in_bits_judged_by_the_full_oracle",
+    "route_cl_configurations_observed_none",
+    "route_cl_configurations_observed_touch",
+    "route_cl_configurations_observed_intersect",
+    "route_cc_configurations_observed_none",
+    "route_cc_configurations_observed_same",
+    "route_cc_configurations_observed_touch",
+    "route_cc_configurations_observed_intersect",
+    "route_ll_configurations_observed_parallel",
+    "route_ll_configurations_observed_point",
+    "route_position_configurations",
+    "route_contains_configurations",
 ];
 
 #[derive(Clone)]
@@ -589,8 +617,8 @@ macro_rules! case_id {
 }
 // lattice 1, the near-boundary companions and the small special families: every way on every result; the
 // similarity images of lattice 1 and the (large) nearly-normalised-lines family: every way on one-point results
-case_id!(ClCase, |k| k.tf.is_id() || k.pert != 0);
-case_id!(CcCase, |k| k.tf.is_id() || k.pert != 0);
+case_id!(ClCase, |k| (k.tf.is_id() || k.pert != 0) && k.rc == 0 && k.rl == 0);
+case_id!(CcCase, |k| (k.tf.is_id() || k.pert != 0) && k.rta == 0 && k.rtb == 0);
 case_id!(RatioCase, |_| true);
 case_id!(EqCase, |_| true);
 case_id!(NuCase, |_| false);
@@ -645,6 +673,243 @@ fn iter_cc(acc: &mut Acc, key: Key, k: &dyn CaseId, which: &str, v: &CircleInter
 }
 
 // ------------------------------------------------------------------------------------------------
+// construction routes: the property speaks of circle / line / point VALUES; the public API offers several ways
+// of arriving at the same value (constructor, Default + assignment of the public fields, constructor with other
+// values + assignment, in-place arithmetic on a public field, Copy / Clone of such an object, the other
+// constructor).  No struct literal is used anywhere: the types may carry private fields.
+// ------------------------------------------------------------------------------------------------
+
+const CIRCLE_ROUTES: [&str; 10] = [
+    "new(c,r)",
+    "default();.c=c;.r=r",
+    "default();.r=r;.c=c",
+    "new(c,r/2);.r*=2",
+    "new(c,2r+1);.r=r",
+    "new(elsewhere,r);.c=c",
+    "new(elsewhere,r/2+7);.c=c;.r=r",
+    "default();.c.x=;.c.y=;.r=r",
+    "copy-of(new(c,r/2);.r=r)",
+    "clone-of(default();.c=c;.r=r)",
+];
+
+const LINE_ROUTES: [&str; 8] = [
+    "between(u,v)",
+    "default();.a=;.b=;.c=",
+    "new(1,0,0);.a=;.b=;.c=",
+    "copy-of(default();.a=;.b=;.c=)",
+    "clone-of(new(0,2,-3);.a=;.b=;.c=)",
+    "new(u.y-v.y,v.x-u.x,-(a*u.x+b*u.y))",
+    "between(u',v')-of-points-default();.x=;.y=",
+    "new(a,b,0);.c=c",
+];
+
+const POINT_ROUTES: [&str; 4] = ["new(x,y)", "default();.x=;.y=", "new(y+1,-x);.x=;.y=", "copy-of(default();.y=;.x=)"];
+
+/// `;route=...` naming every operand not built by its plain constructor (empty when all are)
+fn route_tag(ops: &[(&str, &str, usize)]) -> String {
+    let parts: Vec<String> = ops.iter().filter(|o| o.2 != 0).map(|o| format!("{}:{}", o.0, o.1)).collect();
+    if parts.is_empty() {
+        String::new()
+    } else {
+        format!(";route={}", parts.join(","))
+    }
+}
+
+/// the point with coordinates of `p`, arrived at by POINT_ROUTES[route]
+#[allow(clippy::field_reassign_with_default)]
+fn point_by(route: usize, p: &Point) -> Point {
+    match route {
+        0 => *p,
+        1 => {
+            let mut q = Point::default();
+            q.x = p.x;
+            q.y = p.y;
+            q
+        }
+        2 => {
+            let mut q = Point::new(p.y + 1.0, -p.x);
+            q.x = p.x;
+            q.y = p.y;
+            q
+        }
+        3 => {
+            let mut q = Point::default();
+            q.y = p.y;
+            q.x = p.x;
+            let copy = q;
+            copy
+        }
+        _ => panic!("unknown point route {route}"),
+    }
+}
+
+/// the circle with public fields c, r, arrived at by CIRCLE_ROUTES[route]
+#[allow(clippy::field_reassign_with_default, clippy::clone_on_copy)]
+fn circle_by(route: usize, c: Point, r: f64) -> Circle {
+    let elsewhere = Point::new(c.x + r + 1.0, c.y - 2.0 * r - 3.0);
+    match route {
+        0 => Circle::new(c, r),
+        1 => {
+            let mut x = Circle::default();
+            x.c = c;
+            x.r = r;
+            x
+        }
+        2 => {
+            let mut x = Circle::default();
+            x.r = r;
+            x.c = c;
+            x
+        }
+        3 => {
+            let mut x = Circle::new(c, r / 2.0);
+            x.r *= 2.0;
+            if x.r != r {
+                x.r = r; // only for subnormal radii; never on the engine's inputs
+            }
+            x
+        }
+        4 => {
+            let mut x = Circle::new(c, 2.0 * r + 1.0);
+            x.r = r;
+            x
+        }
+        5 => {
+            let mut x = Circle::new(elsewhere, r);
+            x.c = c;
+            x
+        }
+        6 => {
+            let mut x = Circle::new(elsewhere, r / 2.0 + 7.0);
+            x.c = c;
+            x.r = r;
+            x
+        }
+        7 => {
+            let mut x = Circle::default();
+            x.c.x = c.x;
+            x.c.y = c.y;
+            x.r = r;
+            x
+        }
+        8 => {
+            let mut x = Circle::new(c, r / 2.0);
+            x.r = r;
+            let copy = x;
+            copy
+        }
+        9 => {
+            let mut x = Circle::default();
+            x.c = c;
+            x.r = r;
+            x.clone()
+        }
+        _ => panic!("unknown circle route {route}"),
+    }
+}
+
+/// the line through the fed points u, v arrived at by LINE_ROUTES[route].  `base` is `Line::between(u, v)` as the
+/// engine built it.  Routes 1-4 end with exactly base's public fields; 5 and 6 are the other constructor / the same
+/// constructor on points that were built differently; 7 re-normalises base's unit normal and then assigns c
+/// (its a, b may differ from base's in the last bit: still a line with a unit normal through u and v within
+/// rounding).  Whatever the bits, the result is judged by the same oracle against the DEFINING points.
+#[allow(clippy::clone_on_copy)]
+fn line_by(route: usize, base: &Line, u: &Point, v: &Point) -> Line {
+    let assign = |mut l: Line| {
+        l.a = base.a;
+        l.b = base.b;
+        l.c = base.c;
+        l
+    };
+    match route {
+        0 => *base,
+        1 => assign(Line::default()),
+        2 => assign(Line::new(1.0, 0.0, 0.0)),
+        3 => {
+            let l = assign(Line::default());
+            let copy = l;
+            copy
+        }
+        4 => assign(Line::new(0.0, 2.0, -3.0)).clone(),
+        5 => {
+            let a = u.y - v.y;
+            let b = v.x - u.x;
+            Line::new(a, b, -(a * u.x + b * u.y))
+        }
+        6 => Line::between(&point_by(1, u), &point_by(1, v)),
+        7 => {
+            let mut l = Line::new(base.a, base.b, 0.0);
+            l.c = base.c;
+            l
+        }
+        _ => panic!("unknown line route {route}"),
+    }
+}
+
+/// a line that stands for "could not be built" (every test on it fails)
+fn nan_line() -> Line {
+    let mut l = Line::default();
+    l.a = f64::NAN;
+    l.b = f64::NAN;
+    l.c = f64::NAN;
+    l
+}
+
+/// operand route combinations judged per configuration: every non-plain route of one operand with the other plain,
+/// and every pairing of equal index (circle-line: the first of each together)
+fn cl_combos() -> Vec<(usize, usize)> {
+    let mut v: Vec<(usize, usize)> = (1..CIRCLE_ROUTES.len()).map(|c| (c, 0)).collect();
+    v.extend((1..LINE_ROUTES.len()).map(|l| (0, l)));
+    v.extend((1..LINE_ROUTES.len()).map(|l| (l, l)));
+    v
+}
+fn pair_combos(n: usize) -> Vec<(usize, usize)> {
+    let mut v: Vec<(usize, usize)> = (1..n).map(|a| (a, 0)).collect();
+    v.extend((1..n).map(|b| (0, b)));
+    v.extend((1..n).map(|a| (a, a)));
+    v
+}
+
+fn pbits(p: &Point) -> (u64, u64) {
+    (p.x.to_bits(), p.y.to_bits())
+}
+fn same_cl(a: &Result<CircleLineIntersection, String>, b: &Result<CircleLineIntersection, String>) -> bool {
+    use CircleLineIntersection::*;
+    match (a, b) {
+        (Err(_), Err(_)) => true,
+        (Ok(None), Ok(None)) => true,
+        (Ok(Touch(p)), Ok(Touch(q))) => pbits(p) == pbits(q),
+        (Ok(Intersect(p, q)), Ok(Intersect(s, t))) => pbits(p) == pbits(s) && pbits(q) == pbits(t),
+        _ => false,
+    }
+}
+fn same_cc(a: &Result<CircleIntersection, String>, b: &Result<CircleIntersection, String>) -> bool {
+    match (a, b) {
+        (Err(_), Err(_)) => true,
+        (Ok(u), Ok(v)) => cc_kind_of(u) == cc_kind_of(v) && cc_points(u).iter().map(pbits).eq(cc_points(v).iter().map(pbits)),
+        _ => false,
+    }
+}
+
+impl Acc {
+    /// a result obtained with operands built by another route differed in bits from the judged one: it went through
+    /// the full oracle into `s`; its first failure (if any) is reported under the route family
+    fn route_judged(&mut self, fam: &'static str, key: Key, calls: u64, sig: String, s: Acc) {
+        self.c[C::RouteDiffer as usize] += calls;
+        let failed = s.fails.into_iter().next();
+        self.note("route_result_differing_in_bits_from_the_new_route", key, || json!({"family": fam, "case": sig, "verdict_of_the_full_oracle": failed.as_ref().map(|f| f.0).unwrap_or("ok")}));
+        if let Some((inner, (_, v))) = failed {
+            self.fail(fam, key, || {
+                let mut rp = v.replay.clone();
+                rp["family"] = json!(fam);
+                rp["inner_family"] = json!(inner);
+                Violation::new(format!("{fam}:{}", v.signature), format!("operands arrived at by another public construction route (named after `route=` in {}; same public field values as with the plain constructor, for which this configuration is judged separately): {}", v.signature, v.summary), rp)
+            });
+        }
+    }
+}
+
+// ------------------------------------------------------------------------------------------------
 // circle–line
 // ------------------------------------------------------------------------------------------------
 
@@ -655,6 +920,7 @@ enum ClKind {
     Intersect,
 }
 
+#[derive(Clone, Copy)]
 struct ClCase {
     tf: Tf,
     c: IP,
@@ -663,16 +929,23 @@ struct ClCase {
     p2: IP,
     /// index into PERTS: change of the fed radius (near-boundary family), 0 = none
     pert: usize,
+    /// construction routes of the circle (index into CIRCLE_ROUTES) and of the line (LINE_ROUTES); 0 = new / between
+    rc: usize,
+    rl: usize,
 }
 
 impl ClCase {
     fn sig(&self) -> String {
         let dr = if self.pert == 0 { String::new() } else { format!(";dr={}", pert_tag(self.pert)) };
-        format!("tf={};c={};r={};l={}>{}{dr}", self.tf.tag(), ip(self.c), self.r, ip(self.p1), ip(self.p2))
+        format!("tf={};c={};r={};l={}>{}{dr}{}", self.tf.tag(), ip(self.c), self.r, ip(self.p1), ip(self.p2), route_tag(&[("circle", CIRCLE_ROUTES[self.rc], self.rc), ("line", LINE_ROUTES[self.rl], self.rl)]))
     }
     fn replay(&self, fam: &str) -> Value {
         json!({"case": "cl", "family": fam, "tf": self.tf.json(), "c": [self.c.0, self.c.1], "r": self.r,
-               "p1": [self.p1.0, self.p1.1], "p2": [self.p2.0, self.p2.1], "pert": self.pert})
+               "p1": [self.p1.0, self.p1.1], "p2": [self.p2.0, self.p2.1], "pert": self.pert, "route_circle": self.rc, "route_line": self.rl})
+    }
+    /// the radius handed to the library
+    fn rad(&self) -> f64 {
+        self.tf.rad(self.r) + PERTS[self.pert]
     }
 }
 
@@ -727,8 +1000,8 @@ fn check_cl(acc: &mut Acc, key: Key, k: &ClCase, fc: &Point, fp1: &Point, fp2: &
         }
     }
 
-    let circle = Circle::new(*fc, k.tf.rad(k.r));
-    let res = catch(|| util::intersect_cl(&circle, fl));
+    let rad = k.rad();
+    let res = cl_call(k, fc, fp1, fp2, fl);
     acc.inc(C::Evals);
 
     // reference points (pre-image plane, then mapped)
@@ -771,7 +1044,7 @@ fn check_cl(acc: &mut Acc, key: Key, k: &ClCase, fc: &Point, fp1: &Point, fp2: &
     match res.as_ref().unwrap() {
         CircleLineIntersection::None => {}
         CircleLineIntersection::Touch(p) => {
-            let oc = off_circle(p, fc, circle.r);
+            let oc = off_circle(p, fc, rad);
             let ol = off_line(p, fp1, fp2);
             let dev = if exact == ClKind::Touch { d2(p.x, p.y, e1.0, e1.1) } else { 0.0 };
             if within(dev) {
@@ -783,7 +1056,7 @@ fn check_cl(acc: &mut Acc, key: Key, k: &ClCase, fc: &Point, fp1: &Point, fp2: &
                         format!("cl_touch_point:{}", k.sig()),
                         format!(
                             "intersect_cl tangent point: circle centre {} r={} and the line through {} and {} (transform {}; fed centre {} r={:?}, line points {} {}): exact tangent point {:?}, library returned Touch{} — off the circle by {:?}, off the line by {:?} (tolerance 1e-7)",
-                            ip(k.c), k.r, ip(k.p1), ip(k.p2), k.tf.tag(), ps(fc), circle.r, ps(fp1), ps(fp2), e1, ps(p), oc, ol
+                            ip(k.c), k.r, ip(k.p1), ip(k.p2), k.tf.tag(), ps(fc), rad, ps(fp1), ps(fp2), e1, ps(p), oc, ol
                         ),
                         k.replay("cl_touch_point"),
                     )
@@ -792,12 +1065,12 @@ fn check_cl(acc: &mut Acc, key: Key, k: &ClCase, fc: &Point, fp1: &Point, fp2: &
             if exact == ClKind::Touch && non_axis {
                 acc.note(if k.tf.is_id() { "cl_touch_non_axis_lattice1" } else { "cl_touch_non_axis_lattice2" }, key, || {
                     json!({"call": "intersect_cl", "transform": k.tf.tag(), "centre": [k.c.0, k.c.1], "r": k.r, "line_through": [[k.p1.0, k.p1.1], [k.p2.0, k.p2.1]],
-                           "fed_centre": pj(fc), "fed_r": circle.r, "exact": "Touch", "exact_point": [e1.0, e1.1], "observed": format!("Touch{}", ps(p)), "off_circle": oc, "off_line": ol})
+                           "fed_centre": pj(fc), "fed_r": rad, "exact": "Touch", "exact_point": [e1.0, e1.1], "observed": format!("Touch{}", ps(p)), "off_circle": oc, "off_line": ol})
                 });
             }
         }
         CircleLineIntersection::Intersect(p, q) => {
-            let worst = [off_circle(p, fc, circle.r), off_line(p, fp1, fp2), off_circle(q, fc, circle.r), off_line(q, fp1, fp2)];
+            let worst = [off_circle(p, fc, rad), off_line(p, fp1, fp2), off_circle(q, fc, rad), off_line(q, fp1, fp2)];
             if !worst.iter().all(|w| within(*w)) {
                 acc.fail("cl_point_on_both", key, || {
                     Violation::new(
@@ -856,8 +1129,7 @@ fn check_cl_near(acc: &mut Acc, key: Key, k: &ClCase, fc: &Point, fp1: &Point, f
     if dr.abs() < r0 * 1e-9 {
         acc.inc(C::NearLargeRadiusInRelBand);
     }
-    let circle = Circle::new(*fc, rp);
-    let res = catch(|| util::intersect_cl(&circle, fl));
+    let res = cl_call(k, fc, fp1, fp2, fl);
     acc.inc(C::Evals);
     let what = || {
         format!(
@@ -918,6 +1190,7 @@ enum CcKind {
     Intersect,
 }
 
+#[derive(Clone, Copy)]
 struct CcCase {
     tf: Tf,
     a: IP,
@@ -926,15 +1199,22 @@ struct CcCase {
     rb: i64,
     /// index into PERTS: change of the fed radius of circle a (near-boundary family), 0 = none
     pert: usize,
+    /// construction routes of the two circles (index into CIRCLE_ROUTES); 0 = new
+    rta: usize,
+    rtb: usize,
 }
 
 impl CcCase {
     fn sig(&self) -> String {
         let dr = if self.pert == 0 { String::new() } else { format!(";dra={}", pert_tag(self.pert)) };
-        format!("tf={};a={};ra={};b={};rb={}{dr}", self.tf.tag(), ip(self.a), self.ra, ip(self.b), self.rb)
+        format!("tf={};a={};ra={};b={};rb={}{dr}{}", self.tf.tag(), ip(self.a), self.ra, ip(self.b), self.rb, route_tag(&[("a", CIRCLE_ROUTES[self.rta], self.rta), ("b", CIRCLE_ROUTES[self.rtb], self.rtb)]))
     }
     fn replay(&self, fam: &str) -> Value {
-        json!({"case": "cc", "family": fam, "tf": self.tf.json(), "a": [self.a.0, self.a.1], "ra": self.ra, "b": [self.b.0, self.b.1], "rb": self.rb, "pert": self.pert})
+        json!({"case": "cc", "family": fam, "tf": self.tf.json(), "a": [self.a.0, self.a.1], "ra": self.ra, "b": [self.b.0, self.b.1], "rb": self.rb, "pert": self.pert, "route_a": self.rta, "route_b": self.rtb})
+    }
+    /// the radii handed to the library
+    fn rads(&self) -> (f64, f64) {
+        (self.tf.rad(self.ra) + PERTS[self.pert], self.tf.rad(self.rb))
     }
     fn text(&self) -> String {
         format!("circles centre {} r={} and centre {} r={} (transform {})", ip(self.a), self.ra, ip(self.b), self.rb, self.tf.tag())
@@ -1025,8 +1305,8 @@ fn check_cc(acc: &mut Acc, key: Key, k: &CcCase, fa: &Point, fb: &Point) -> CcKi
         acc.inc(C::Nontrivial);
     }
 
-    let ca = Circle::new(*fa, k.tf.rad(k.ra));
-    let cb = Circle::new(*fb, k.tf.rad(k.rb));
+    let ca = circle_by(k.rta, *fa, k.rads().0);
+    let cb = circle_by(k.rtb, *fb, k.rads().1);
     let res_ab = catch(|| util::intersect_cc(&ca, &cb));
     let res_ba = catch(|| util::intersect_cc(&cb, &ca));
     acc.inc(C::Evals);
@@ -1162,8 +1442,8 @@ fn check_cc_near(acc: &mut Acc, key: Key, k: &CcCase, fa: &Point, fb: &Point) {
     if dr.abs() < r0.max(k.tf.rad(k.rb)) * 1e-9 {
         acc.inc(C::NearLargeRadiusInRelBand);
     }
-    let ca = Circle::new(*fa, rp);
-    let cb = Circle::new(*fb, k.tf.rad(k.rb));
+    let ca = circle_by(k.rta, *fa, rp);
+    let cb = circle_by(k.rtb, *fb, k.tf.rad(k.rb));
     let res_ab = catch(|| util::intersect_cc(&ca, &cb));
     let res_ba = catch(|| util::intersect_cc(&cb, &ca));
     acc.inc(C::Evals);
@@ -1674,21 +1954,25 @@ impl EqFamily {
 // line–line, parallel
 // ------------------------------------------------------------------------------------------------
 
+#[derive(Clone, Copy)]
 struct LlCase {
     tf: Tf,
     p1: IP,
     p2: IP,
     q1: IP,
     q2: IP,
+    /// construction routes of the two lines (index into LINE_ROUTES); 0 = between
+    ru: usize,
+    rv: usize,
 }
 
 impl LlCase {
     fn sig(&self) -> String {
         let t = &self.tf;
-        format!("tf={};l={}>{};m={}>{}", t.tag(), t.show(self.p1), t.show(self.p2), t.show(self.q1), t.show(self.q2))
+        format!("tf={};l={}>{};m={}>{}{}", t.tag(), t.show(self.p1), t.show(self.p2), t.show(self.q1), t.show(self.q2), route_tag(&[("l", LINE_ROUTES[self.ru], self.ru), ("m", LINE_ROUTES[self.rv], self.rv)]))
     }
     fn replay(&self, fam: &str) -> Value {
-        json!({"case": "ll", "family": fam, "tf": self.tf.json(), "p1": [self.p1.0, self.p1.1], "p2": [self.p2.0, self.p2.1], "q1": [self.q1.0, self.q1.1], "q2": [self.q2.0, self.q2.1]})
+        json!({"case": "ll", "family": fam, "tf": self.tf.json(), "p1": [self.p1.0, self.p1.1], "p2": [self.p2.0, self.p2.1], "q1": [self.q1.0, self.q1.1], "q2": [self.q2.0, self.q2.1], "route_l": self.ru, "route_m": self.rv})
     }
     fn text(&self) -> String {
         let t = &self.tf;
@@ -1733,6 +2017,15 @@ fn check_ll(acc: &mut Acc, key: Key, k: &LlCase, fp1: &Point, fp2: &Point, fq1: 
     if skew {
         acc.inc(if par_exact { C::SkewLlParallel } else { C::SkewLlPoint });
     }
+    let built = if k.ru == 0 && k.rv == 0 { Ok((*lu, *lv)) } else { catch(|| (line_by(k.ru, lu, fp1, fp2), line_by(k.rv, lv, fq1, fq2))) };
+    let (lu, lv) = match built {
+        Ok(b) => b,
+        Err(e) => {
+            acc.fail(fam.panic, key, || Violation::new(format!("{}:{}", fam.panic, k.sig()), format!("building the lines of {} panicked: {e}", k.text()), k.replay(fam.panic)));
+            return;
+        }
+    };
+    let (lu, lv) = (&lu, &lv);
     let par_obs = catch(|| util::parallel(lu, lv));
     let res = catch(|| util::intersect_ll(lu, lv));
     acc.inc(C::Evals);
@@ -1816,6 +2109,7 @@ fn check_ll(acc: &mut Acc, key: Key, k: &LlCase, fp1: &Point, fp2: &Point, fq1: 
 // Circle::position, Line::contains
 // ------------------------------------------------------------------------------------------------
 
+#[derive(Clone, Copy)]
 struct PosCase {
     tf: Tf,
     c: IP,
@@ -1823,15 +2117,18 @@ struct PosCase {
     p: IP,
     /// index into PERTS: change of the fed radius (near-boundary family), 0 = none
     pert: usize,
+    /// construction routes of the circle (CIRCLE_ROUTES) and of the point (POINT_ROUTES); 0 = new
+    rc: usize,
+    rp: usize,
 }
 
 impl PosCase {
     fn sig(&self) -> String {
         let dr = if self.pert == 0 { String::new() } else { format!(";dr={}", pert_tag(self.pert)) };
-        format!("tf={};c={};r={};p={}{dr}", self.tf.tag(), ip(self.c), self.r, ip(self.p))
+        format!("tf={};c={};r={};p={}{dr}{}", self.tf.tag(), ip(self.c), self.r, ip(self.p), route_tag(&[("circle", CIRCLE_ROUTES[self.rc], self.rc), ("point", POINT_ROUTES[self.rp], self.rp)]))
     }
     fn replay(&self, fam: &str) -> Value {
-        json!({"case": "pos", "family": fam, "tf": self.tf.json(), "c": [self.c.0, self.c.1], "r": self.r, "p": [self.p.0, self.p.1], "pert": self.pert})
+        json!({"case": "pos", "family": fam, "tf": self.tf.json(), "c": [self.c.0, self.c.1], "r": self.r, "p": [self.p.0, self.p.1], "pert": self.pert, "route_circle": self.rc, "route_point": self.rp})
     }
 }
 
@@ -1849,8 +2146,7 @@ fn check_pos_near(acc: &mut Acc, key: Key, k: &PosCase, fc: &Point, fp: &Point) 
     }
     let exact = if dr > 0.0 { PointPosition::Inside } else { PointPosition::Outside };
     acc.inc(if dr > 0.0 { C::NearPosInside } else { C::NearPosOutside });
-    let circle = Circle::new(*fc, rp);
-    let res = catch(|| circle.position(fp));
+    let res = pos_call(k, fc, fp);
     acc.inc(C::Evals);
     if res.as_ref().ok() != Some(&exact) {
         let s = format!("{:?}", res);
@@ -1889,8 +2185,7 @@ fn check_pos(acc: &mut Acc, key: Key, k: &PosCase, fc: &Point, fp: &Point) -> bo
     if k.tf.is_id() && dd != rr {
         acc.gap_pos_rel = acc.gap_pos_rel.min(((dd as f64).sqrt() - k.r as f64).abs() / k.r as f64);
     }
-    let circle = Circle::new(*fc, k.tf.rad(k.r));
-    let res = catch(|| circle.position(fp));
+    let res = pos_call(k, fc, fp);
     acc.inc(C::Evals);
     if res.as_ref().ok() != Some(&exact) {
         let s = format!("{:?}", res);
@@ -1901,11 +2196,15 @@ fn check_pos(acc: &mut Acc, key: Key, k: &PosCase, fc: &Point, fp: &Point) -> bo
     dd == rr
 }
 
+#[derive(Clone, Copy)]
 struct ConCase {
     tf: Tf,
     p1: IP,
     p2: IP,
     q: IP,
+    /// construction routes of the line (LINE_ROUTES) and of the point (POINT_ROUTES); 0 = between / new
+    rl: usize,
+    rp: usize,
 }
 
 impl ConCase {
@@ -1918,10 +2217,10 @@ impl ConCase {
     }
     fn sig(&self) -> String {
         let t = &self.tf;
-        format!("tf={};l={}>{};p={}", t.tag(), t.show(self.p1), t.show(self.p2), t.show(self.q))
+        format!("tf={};l={}>{};p={}{}", t.tag(), t.show(self.p1), t.show(self.p2), t.show(self.q), route_tag(&[("line", LINE_ROUTES[self.rl], self.rl), ("point", POINT_ROUTES[self.rp], self.rp)]))
     }
     fn replay(&self) -> Value {
-        json!({"case": "contains", "family": self.fam(), "tf": self.tf.json(), "p1": [self.p1.0, self.p1.1], "p2": [self.p2.0, self.p2.1], "q": [self.q.0, self.q.1]})
+        json!({"case": "contains", "family": self.fam(), "tf": self.tf.json(), "p1": [self.p1.0, self.p1.1], "p2": [self.p2.0, self.p2.1], "q": [self.q.0, self.q.1], "route_line": self.rl, "route_point": self.rp})
     }
 }
 
@@ -1943,7 +2242,7 @@ fn check_contains(acc: &mut Acc, key: Key, k: &ConCase, fl: &Line, fq: &Point) {
             acc.gap_contains = acc.gap_contains.min(g);
         }
     }
-    let res = catch(|| fl.contains(fq));
+    let res = contains_call(k, fl, fq);
     acc.inc(C::Evals);
     if res.as_ref().ok() != Some(&exact) {
         let s = format!("{:?}", res);
@@ -1951,6 +2250,186 @@ fn check_contains(acc: &mut Acc, key: Key, k: &ConCase, fl: &Line, fq: &Point) {
             Violation::new(format!("{}:{}", k.fam(), k.sig()), format!("Line::contains: line through {} and {} and point {} (transform {}): exact cross product {cross}, so on the line = {exact}; library returned {s} (line a,b,c = {:?},{:?},{:?})", k.tf.show(k.p1), k.tf.show(k.p2), k.tf.show(k.q), k.tf.tag(), fl.a, fl.b, fl.c), k.replay())
         });
     }
+}
+
+// ------------------------------------------------------------------------------------------------
+// construction routes: every judged configuration once more with operands arrived at differently
+// ------------------------------------------------------------------------------------------------
+//
+// Each `routes_*` function re-runs the real call of one configuration for every route combination of its
+// operands.  The plain-route result of that configuration has just been judged by the family's oracle; a result
+// that is bit-for-bit that result has the same verdict (the oracle is a function of configuration and result).
+// Any result that differs in a bit goes through the same oracle in full.
+
+fn cl_call(k: &ClCase, fc: &Point, fp1: &Point, fp2: &Point, fl: &Line) -> Result<CircleLineIntersection, String> {
+    catch(|| {
+        let circle = circle_by(k.rc, *fc, k.rad());
+        let line = line_by(k.rl, fl, fp1, fp2);
+        util::intersect_cl(&circle, &line)
+    })
+}
+
+#[allow(clippy::too_many_arguments)]
+fn routes_cl(acc: &mut Acc, key: Key, k: &ClCase, combos: &[(usize, usize)], fc: &Point, fp1: &Point, fp2: &Point, fl: &Line) {
+    let base = cl_call(k, fc, fp1, fp2, fl);
+    acc.inc(match &base {
+        Ok(CircleLineIntersection::Touch(_)) => C::RouteClTouch,
+        Ok(CircleLineIntersection::Intersect(..)) => C::RouteClIntersect,
+        _ => C::RouteClNone,
+    });
+    for &(rc, rl) in combos {
+        let kr = ClCase { rc, rl, ..*k };
+        let res = cl_call(&kr, fc, fp1, fp2, fl);
+        acc.inc(C::Evals);
+        acc.inc(C::RouteCalls);
+        if same_cl(&base, &res) {
+            acc.inc(C::RouteBitIdentical);
+            continue;
+        }
+        let mut s = Acc::new();
+        if k.pert == 0 {
+            check_cl(&mut s, key, &kr, fc, fp1, fp2, fl);
+        } else {
+            check_cl_near(&mut s, key, &kr, fc, fp1, fp2, fl);
+        }
+        acc.route_judged("route_cl", key, 1, kr.sig(), s);
+    }
+}
+
+type CcRes = Result<CircleIntersection, String>;
+
+fn cc_calls(k: &CcCase, fa: &Point, fb: &Point) -> (CcRes, CcRes) {
+    let (ra, rb) = k.rads();
+    let ab = catch(|| util::intersect_cc(&circle_by(k.rta, *fa, ra), &circle_by(k.rtb, *fb, rb)));
+    let ba = catch(|| util::intersect_cc(&circle_by(k.rtb, *fb, rb), &circle_by(k.rta, *fa, ra)));
+    (ab, ba)
+}
+
+fn routes_cc(acc: &mut Acc, key: Key, k: &CcCase, combos: &[(usize, usize)], fa: &Point, fb: &Point) {
+    let base = cc_calls(k, fa, fb);
+    acc.inc(match base.0.as_ref().map(cc_kind_of) {
+        Ok(CcKind::Same) => C::RouteCcSame,
+        Ok(CcKind::TouchInside) | Ok(CcKind::TouchOutside) => C::RouteCcTouch,
+        Ok(CcKind::Intersect) => C::RouteCcIntersect,
+        _ => C::RouteCcNone,
+    });
+    for &(rta, rtb) in combos {
+        let kr = CcCase { rta, rtb, ..*k };
+        let res = cc_calls(&kr, fa, fb);
+        acc.inc(C::Evals);
+        acc.inc(C::Evals);
+        acc.inc(C::RouteCalls);
+        acc.inc(C::RouteCalls);
+        if same_cc(&base.0, &res.0) && same_cc(&base.1, &res.1) {
+            acc.inc(C::RouteBitIdentical);
+            acc.inc(C::RouteBitIdentical);
+            continue;
+        }
+        let mut s = Acc::new();
+        if k.pert == 0 {
+            check_cc(&mut s, key, &kr, fa, fb);
+        } else {
+            check_cc_near(&mut s, key, &kr, fa, fb);
+        }
+        acc.route_judged("route_cc", key, 2, kr.sig(), s);
+    }
+}
+
+#[allow(clippy::too_many_arguments)]
+fn ll_calls(k: &LlCase, fp1: &Point, fp2: &Point, fq1: &Point, fq2: &Point, lu: &Line, lv: &Line) -> Result<(bool, Option<(u64, u64)>), String> {
+    catch(|| {
+        let u = line_by(k.ru, lu, fp1, fp2);
+        let v = line_by(k.rv, lv, fq1, fq2);
+        (util::parallel(&u, &v), util::intersect_ll(&u, &v).as_ref().map(pbits))
+    })
+}
+
+#[allow(clippy::too_many_arguments)]
+fn routes_ll(acc: &mut Acc, key: Key, k: &LlCase, combos: &[(usize, usize)], fp1: &Point, fp2: &Point, fq1: &Point, fq2: &Point, lu: &Line, lv: &Line) {
+    let base = ll_calls(k, fp1, fp2, fq1, fq2, lu, lv);
+    acc.inc(match &base {
+        Ok((_, Some(_))) => C::RouteLlPoint,
+        _ => C::RouteLlParallel,
+    });
+    for &(ru, rv) in combos {
+        let kr = LlCase { ru, rv, ..*k };
+        let res = ll_calls(&kr, fp1, fp2, fq1, fq2, lu, lv);
+        acc.inc(C::Evals);
+        acc.inc(C::Evals);
+        acc.inc(C::RouteCalls);
+        acc.inc(C::RouteCalls);
+        if res.is_ok() == base.is_ok() && (res.is_err() || res == base) {
+            acc.inc(C::RouteBitIdentical);
+            acc.inc(C::RouteBitIdentical);
+            continue;
+        }
+        let mut s = Acc::new();
+        check_ll(&mut s, key, &kr, fp1, fp2, fq1, fq2, lu, lv);
+        acc.route_judged("route_ll", key, 2, kr.sig(), s);
+    }
+}
+
+fn pos_call(k: &PosCase, fc: &Point, fp: &Point) -> Result<PointPosition, String> {
+    catch(|| circle_by(k.rc, *fc, k.tf.rad(k.r) + PERTS[k.pert]).position(&point_by(k.rp, fp)))
+}
+
+fn routes_pos(acc: &mut Acc, key: Key, k: &PosCase, combos: &[(usize, usize)], fc: &Point, fp: &Point) {
+    let rp = k.tf.rad(k.r) + PERTS[k.pert];
+    if k.pert != 0 && (rp - k.tf.rad(k.r)).abs() <= 1.01e-9 * rp {
+        return; // inside the library's relative tolerance: not judged by check_pos_near either
+    }
+    let base = pos_call(k, fc, fp);
+    acc.inc(C::RoutePos);
+    for &(rc, rpt) in combos {
+        let kr = PosCase { rc, rp: rpt, ..*k };
+        let res = pos_call(&kr, fc, fp);
+        acc.inc(C::Evals);
+        acc.inc(C::RouteCalls);
+        if res.is_ok() == base.is_ok() && (res.is_err() || res == base) {
+            acc.inc(C::RouteBitIdentical);
+            continue;
+        }
+        let mut s = Acc::new();
+        if k.pert == 0 {
+            check_pos(&mut s, key, &kr, fc, fp);
+        } else {
+            check_pos_near(&mut s, key, &kr, fc, fp);
+        }
+        acc.route_judged("route_position", key, 1, kr.sig(), s);
+    }
+}
+
+fn contains_call(k: &ConCase, fl: &Line, fq: &Point) -> Result<bool, String> {
+    catch(|| {
+        let l = if k.rl == 0 { *fl } else { line_by(k.rl, fl, &k.tf.pt(k.p1), &k.tf.pt(k.p2)) };
+        l.contains(&point_by(k.rp, fq))
+    })
+}
+
+fn routes_contains(acc: &mut Acc, key: Key, k: &ConCase, combos: &[(usize, usize)], fl: &Line, fq: &Point) {
+    let base = contains_call(k, fl, fq);
+    acc.inc(C::RouteContains);
+    for &(rl, rp) in combos {
+        let kr = ConCase { rl, rp, ..*k };
+        let res = contains_call(&kr, fl, fq);
+        acc.inc(C::Evals);
+        acc.inc(C::RouteCalls);
+        if res.is_ok() == base.is_ok() && (res.is_err() || res == base) {
+            acc.inc(C::RouteBitIdentical);
+            continue;
+        }
+        let mut s = Acc::new();
+        check_contains(&mut s, key, &kr, fl, fq);
+        acc.route_judged("route_contains", key, 1, kr.sig(), s);
+    }
+}
+
+/// route combinations of (circle, point) and (line, point)
+fn with_point_combos(n: usize) -> Vec<(usize, usize)> {
+    let mut v: Vec<(usize, usize)> = (1..n).map(|a| (a, 0)).collect();
+    v.extend((1..POINT_ROUTES.len()).map(|p| (0, p)));
+    v.extend((1..POINT_ROUTES.len()).map(|p| (p, p)));
+    v
 }
 
 // ------------------------------------------------------------------------------------------------
@@ -2382,6 +2861,9 @@ struct World {
     lines: Vec<(u32, u32)>,
     flines: Vec<Line>,
     rmax: i64,
+    /// construction routes: None = not on this image; Some(s) = on every configuration, line-line on every s-th
+    /// of the second lines that are visited
+    routes: Option<usize>,
 }
 
 /// lattice points of [-n,n]^2, simplest first
@@ -2404,13 +2886,13 @@ fn build_line(acc: &mut Acc, tf: &Tf, key: Key, p1: IP, p2: IP) -> Line {
             acc.fail("line_between_panic", key, || {
                 Violation::new(format!("line_between_panic:tf={};l={}>{}", tf.tag(), tf.show(p1), tf.show(p2)), format!("Line::between panicked: {e}"), json!({"case": "between", "family": "line_between_panic", "tf": tf.json(), "p1": [p1.0, p1.1], "p2": [p2.0, p2.1]}))
             });
-            Line { a: f64::NAN, b: f64::NAN, c: f64::NAN }
+            nan_line()
         }
     }
 }
 
 impl World {
-    fn new(tf: Tf, tfi: u64, n: i64, rmax: i64, acc: &mut Acc) -> World {
+    fn new(tf: Tf, tfi: u64, n: i64, rmax: i64, routes: Option<usize>, acc: &mut Acc) -> World {
         let pts = lattice(n);
         let fpts: Vec<Point> = pts.iter().map(|&p| tf.pt(p)).collect();
         let mut lines = vec![];
@@ -2423,23 +2905,31 @@ impl World {
                 }
             }
         }
-        World { tf, tfi, pts, fpts, lines, flines, rmax }
+        World { tf, tfi, pts, fpts, lines, flines, rmax, routes }
     }
 
     fn run_cl(&self) -> Acc {
         let nc = self.pts.len() * self.rmax as usize;
+        let combos = cl_combos();
         (0..nc)
             .into_par_iter()
             .map(|ci| {
                 let mut acc = Acc::new();
                 let (pi, r) = (ci / self.rmax as usize, (ci % self.rmax as usize) as i64 + 1);
                 for (li, &(i, j)) in self.lines.iter().enumerate() {
-                    let mut k = ClCase { tf: self.tf, c: self.pts[pi], r, p1: self.pts[i as usize], p2: self.pts[j as usize], pert: 0 };
+                    let mut k = ClCase { tf: self.tf, c: self.pts[pi], r, p1: self.pts[i as usize], p2: self.pts[j as usize], pert: 0, rc: 0, rl: 0 };
                     let exact = check_cl(&mut acc, (self.tfi, ci as u64, li as u64), &k, &self.fpts[pi], &self.fpts[i as usize], &self.fpts[j as usize], &self.flines[li]);
+                    if self.routes.is_some() {
+                        routes_cl(&mut acc, (self.tfi, ci as u64, li as u64), &k, &combos, &self.fpts[pi], &self.fpts[i as usize], &self.fpts[j as usize], &self.flines[li]);
+                    }
                     if exact == ClKind::Touch {
                         for pert in 1..PERTS.len() {
                             k.pert = pert;
-                            check_cl_near(&mut acc, (self.tfi, ci as u64, (li * PERTS.len() + pert) as u64), &k, &self.fpts[pi], &self.fpts[i as usize], &self.fpts[j as usize], &self.flines[li]);
+                            let key = (self.tfi, ci as u64, (li * PERTS.len() + pert) as u64);
+                            check_cl_near(&mut acc, key, &k, &self.fpts[pi], &self.fpts[i as usize], &self.fpts[j as usize], &self.flines[li]);
+                            if self.routes.is_some() {
+                                routes_cl(&mut acc, key, &k, &combos, &self.fpts[pi], &self.fpts[i as usize], &self.fpts[j as usize], &self.flines[li]);
+                            }
                         }
                     }
                 }
@@ -2450,6 +2940,7 @@ impl World {
 
     fn run_cc(&self) -> Acc {
         let nc = self.pts.len() * self.rmax as usize;
+        let combos = pair_combos(CIRCLE_ROUTES.len());
         (0..nc)
             .into_par_iter()
             .map(|ai| {
@@ -2457,12 +2948,19 @@ impl World {
                 let (pa, ra) = (ai / self.rmax as usize, (ai % self.rmax as usize) as i64 + 1);
                 for bi in 0..nc {
                     let (pb, rb) = (bi / self.rmax as usize, (bi % self.rmax as usize) as i64 + 1);
-                    let mut k = CcCase { tf: self.tf, a: self.pts[pa], ra, b: self.pts[pb], rb, pert: 0 };
+                    let mut k = CcCase { tf: self.tf, a: self.pts[pa], ra, b: self.pts[pb], rb, pert: 0, rta: 0, rtb: 0 };
                     let exact = check_cc(&mut acc, (self.tfi, ai as u64, bi as u64), &k, &self.fpts[pa], &self.fpts[pb]);
+                    if self.routes.is_some() {
+                        routes_cc(&mut acc, (self.tfi, ai as u64, bi as u64), &k, &combos, &self.fpts[pa], &self.fpts[pb]);
+                    }
                     if exact == CcKind::TouchInside || exact == CcKind::TouchOutside {
                         for pert in 1..PERTS.len() {
                             k.pert = pert;
-                            check_cc_near(&mut acc, (self.tfi, ai as u64, (bi * PERTS.len() + pert) as u64), &k, &self.fpts[pa], &self.fpts[pb]);
+                            let key = (self.tfi, ai as u64, (bi * PERTS.len() + pert) as u64);
+                            check_cc_near(&mut acc, key, &k, &self.fpts[pa], &self.fpts[pb]);
+                            if self.routes.is_some() {
+                                routes_cc(&mut acc, key, &k, &combos, &self.fpts[pa], &self.fpts[pb]);
+                            }
                         }
                     }
                 }
@@ -2473,6 +2971,7 @@ impl World {
 
     /// first line: every ordered pair; second line: every ordered pair whose index is a multiple of `stride`
     fn run_ll(&self, stride: usize) -> Acc {
+        let combos = pair_combos(LINE_ROUTES.len());
         (0..self.lines.len())
             .into_par_iter()
             .map(|ui| {
@@ -2481,8 +2980,11 @@ impl World {
                 let mut vi = 0;
                 while vi < self.lines.len() {
                     let (m, n) = self.lines[vi];
-                    let k = LlCase { tf: self.tf, p1: self.pts[i as usize], p2: self.pts[j as usize], q1: self.pts[m as usize], q2: self.pts[n as usize] };
+                    let k = LlCase { tf: self.tf, p1: self.pts[i as usize], p2: self.pts[j as usize], q1: self.pts[m as usize], q2: self.pts[n as usize], ru: 0, rv: 0 };
                     check_ll(&mut acc, (self.tfi, ui as u64, vi as u64), &k, &self.fpts[i as usize], &self.fpts[j as usize], &self.fpts[m as usize], &self.fpts[n as usize], &self.flines[ui], &self.flines[vi]);
+                    if self.routes.is_some_and(|s| (vi / stride) % s == 0) {
+                        routes_ll(&mut acc, (self.tfi, ui as u64, vi as u64), &k, &combos, &self.fpts[i as usize], &self.fpts[j as usize], &self.fpts[m as usize], &self.fpts[n as usize], &self.flines[ui], &self.flines[vi]);
+                    }
                     vi += stride;
                 }
                 acc
@@ -2492,17 +2994,26 @@ impl World {
 
     fn run_pos(&self) -> Acc {
         let nc = self.pts.len() * self.rmax as usize;
+        let combos = with_point_combos(CIRCLE_ROUTES.len());
         (0..nc)
             .into_par_iter()
             .map(|ci| {
                 let mut acc = Acc::new();
                 let (pi, r) = (ci / self.rmax as usize, (ci % self.rmax as usize) as i64 + 1);
                 for qi in 0..self.pts.len() {
-                    let mut k = PosCase { tf: self.tf, c: self.pts[pi], r, p: self.pts[qi], pert: 0 };
-                    if check_pos(&mut acc, (self.tfi, ci as u64, qi as u64), &k, &self.fpts[pi], &self.fpts[qi]) {
+                    let mut k = PosCase { tf: self.tf, c: self.pts[pi], r, p: self.pts[qi], pert: 0, rc: 0, rp: 0 };
+                    let border = check_pos(&mut acc, (self.tfi, ci as u64, qi as u64), &k, &self.fpts[pi], &self.fpts[qi]);
+                    if self.routes.is_some() {
+                        routes_pos(&mut acc, (self.tfi, ci as u64, qi as u64), &k, &combos, &self.fpts[pi], &self.fpts[qi]);
+                    }
+                    if border {
                         for pert in 1..PERTS.len() {
                             k.pert = pert;
-                            check_pos_near(&mut acc, (self.tfi, ci as u64, (qi * PERTS.len() + pert) as u64), &k, &self.fpts[pi], &self.fpts[qi]);
+                            let key = (self.tfi, ci as u64, (qi * PERTS.len() + pert) as u64);
+                            check_pos_near(&mut acc, key, &k, &self.fpts[pi], &self.fpts[qi]);
+                            if self.routes.is_some() {
+                                routes_pos(&mut acc, key, &k, &combos, &self.fpts[pi], &self.fpts[qi]);
+                            }
                         }
                     }
                 }
@@ -2512,14 +3023,18 @@ impl World {
     }
 
     fn run_contains(&self) -> Acc {
+        let combos = with_point_combos(LINE_ROUTES.len());
         (0..self.lines.len())
             .into_par_iter()
             .map(|li| {
                 let mut acc = Acc::new();
                 let (i, j) = self.lines[li];
                 for qi in 0..self.pts.len() {
-                    let k = ConCase { tf: self.tf, p1: self.pts[i as usize], p2: self.pts[j as usize], q: self.pts[qi] };
+                    let k = ConCase { tf: self.tf, p1: self.pts[i as usize], p2: self.pts[j as usize], q: self.pts[qi], rl: 0, rp: 0 };
                     check_contains(&mut acc, (self.tfi, li as u64, qi as u64), &k, &self.flines[li], &self.fpts[qi]);
+                    if self.routes.is_some() {
+                        routes_contains(&mut acc, (self.tfi, li as u64, qi as u64), &k, &combos, &self.flines[li], &self.fpts[qi]);
+                    }
                 }
                 acc
             })
@@ -2595,17 +3110,17 @@ impl SkewPlane {
                 let nl = self.lines.len();
                 for (li, &(q1, q2)) in self.lines.iter().enumerate() {
                     let (g1, g2) = (tf.pt(q1), tf.pt(q2));
-                    let k = LlCase { tf, p1: s1, p2: s2, q1, q2 };
+                    let k = LlCase { tf, p1: s1, p2: s2, q1, q2, ru: 0, rv: 0 };
                     check_ll(&mut acc, (self.tfi, si as u64, 2 * li as u64), &k, &f1, &f2, &g1, &g2, ls, &self.flines[li]);
-                    let k = LlCase { tf, p1: q1, p2: q2, q1: s1, q2: s2 };
+                    let k = LlCase { tf, p1: q1, p2: q2, q1: s1, q2: s2, ru: 0, rv: 0 };
                     check_ll(&mut acc, (self.tfi, si as u64, 2 * li as u64 + 1), &k, &g1, &g2, &f1, &f2, &self.flines[li], ls);
                 }
                 for (sj, &(t1, t2, _)) in self.skew.iter().enumerate() {
-                    let k = LlCase { tf, p1: s1, p2: s2, q1: t1, q2: t2 };
+                    let k = LlCase { tf, p1: s1, p2: s2, q1: t1, q2: t2, ru: 0, rv: 0 };
                     check_ll(&mut acc, (self.tfi, si as u64, (2 * nl + sj) as u64), &k, &f1, &f2, &tf.pt(t1), &tf.pt(t2), ls, &self.fskew[sj]);
                 }
                 for (qi, &q) in self.pts.iter().chain([s1, s2, s0].iter()).enumerate() {
-                    let k = ConCase { tf, p1: s1, p2: s2, q };
+                    let k = ConCase { tf, p1: s1, p2: s2, q, rl: 0, rp: 0 };
                     check_contains(&mut acc, (self.tfi, si as u64, qi as u64), &k, ls, &tf.pt(q));
                 }
                 acc
@@ -2654,11 +3169,18 @@ fn confirm(v: &Value) -> Result<(), String> {
     if pert >= PERTS.len() {
         return Err(format!("replay file names an unknown radius change #{pert}"));
     }
+    // construction routes of the operands (absent = the plain constructors); a route family's replay file names
+    // the check of the full oracle that failed
+    let route = |name: &str, n: usize| -> Result<usize, String> {
+        let r = v[name].as_u64().unwrap_or(0) as usize;
+        if r < n { Ok(r) } else { Err(format!("replay file names an unknown construction route {name} = {r}")) }
+    };
+    let fam = if fam.starts_with("route_") { v["inner_family"].as_str().unwrap_or("").to_string() } else { fam };
     let mut acc = Acc::new();
     let key = (0, 0, 0);
     match v["case"].as_str().unwrap_or("") {
         "cl" => {
-            let k = ClCase { tf, c: g("c"), r: v["r"].as_i64().unwrap(), p1: g("p1"), p2: g("p2"), pert };
+            let k = ClCase { tf, c: g("c"), r: v["r"].as_i64().unwrap(), p1: g("p1"), p2: g("p2"), pert, rc: route("route_circle", CIRCLE_ROUTES.len())?, rl: route("route_line", LINE_ROUTES.len())? };
             let (fc, fp1, fp2) = (tf.pt(k.c), tf.pt(k.p1), tf.pt(k.p2));
             let fl = make_line(&fp1, &fp2).map_err(|e| format!("Line::between panicked: {e}"))?;
             if pert == 0 {
@@ -2668,7 +3190,7 @@ fn confirm(v: &Value) -> Result<(), String> {
             }
         }
         "cc" => {
-            let k = CcCase { tf, a: g("a"), ra: v["ra"].as_i64().unwrap(), b: g("b"), rb: v["rb"].as_i64().unwrap(), pert };
+            let k = CcCase { tf, a: g("a"), ra: v["ra"].as_i64().unwrap(), b: g("b"), rb: v["rb"].as_i64().unwrap(), pert, rta: route("route_a", CIRCLE_ROUTES.len())?, rtb: route("route_b", CIRCLE_ROUTES.len())? };
             if pert == 0 {
                 check_cc(&mut acc, key, &k, &tf.pt(k.a), &tf.pt(k.b));
             } else {
@@ -2676,14 +3198,14 @@ fn confirm(v: &Value) -> Result<(), String> {
             }
         }
         "ll" => {
-            let k = LlCase { tf, p1: g("p1"), p2: g("p2"), q1: g("q1"), q2: g("q2") };
+            let k = LlCase { tf, p1: g("p1"), p2: g("p2"), q1: g("q1"), q2: g("q2"), ru: route("route_l", LINE_ROUTES.len())?, rv: route("route_m", LINE_ROUTES.len())? };
             let (a, b, c, d) = (tf.pt(k.p1), tf.pt(k.p2), tf.pt(k.q1), tf.pt(k.q2));
             let lu = make_line(&a, &b).map_err(|e| format!("Line::between panicked: {e}"))?;
             let lv = make_line(&c, &d).map_err(|e| format!("Line::between panicked: {e}"))?;
             check_ll(&mut acc, key, &k, &a, &b, &c, &d, &lu, &lv);
         }
         "pos" => {
-            let k = PosCase { tf, c: g("c"), r: v["r"].as_i64().unwrap(), p: g("p"), pert };
+            let k = PosCase { tf, c: g("c"), r: v["r"].as_i64().unwrap(), p: g("p"), pert, rc: route("route_circle", CIRCLE_ROUTES.len())?, rp: route("route_point", POINT_ROUTES.len())? };
             if pert == 0 {
                 check_pos(&mut acc, key, &k, &tf.pt(k.c), &tf.pt(k.p));
             } else {
@@ -2691,7 +3213,7 @@ fn confirm(v: &Value) -> Result<(), String> {
             }
         }
         "contains" => {
-            let k = ConCase { tf, p1: g("p1"), p2: g("p2"), q: g("q") };
+            let k = ConCase { tf, p1: g("p1"), p2: g("p2"), q: g("q"), rl: route("route_line", LINE_ROUTES.len())?, rp: route("route_point", POINT_ROUTES.len())? };
             let fl = make_line(&tf.pt(k.p1), &tf.pt(k.p2)).map_err(|e| format!("Line::between panicked: {e}"))?;
             check_contains(&mut acc, key, &k, &fl, &tf.pt(k.q));
         }
@@ -2732,6 +3254,9 @@ fn main() {
     // second line of a line–line case: every `stride`-th ordered pair (1 = all)
     let ll_stride1: usize = args.tier.pick(1, 1);
     let ll_stride2: usize = args.tier.pick(5, 7);
+    // construction routes of a line-line case: on every such-th of the second lines visited
+    let ll_route_stride1: usize = args.tier.pick(13, 29);
+    let ll_route_stride2: usize = args.tier.pick(3, 7);
 
     // skew plane: lattice [-ns,ns]^2 scaled by 100 (defining points of a skew line 800 apart), nudges 2^-e
     let ns: i64 = 4;
@@ -2757,14 +3282,18 @@ fn main() {
     let mut per_tf = vec![];
     for (idx, (tf, n, rmax, stride)) in tfs.iter().enumerate() {
         let mut acc = Acc::new();
-        let w = World::new(*tf, idx as u64, *n, *rmax, &mut acc);
+        // construction routes: on lattice 1 and on the image of largest scale under the first shift of the first
+        // rotation (thorough: of every rotation)
+        let routed = tf.is_id() || ((tf.tx, tf.ty) == shifts[0] && tf.s > 7 && (!quick || (tf.p, tf.q, tf.h) == rotations[0]));
+        let routes = routed.then_some(if tf.is_id() { ll_route_stride1 } else { ll_route_stride2 });
+        let w = World::new(*tf, idx as u64, *n, *rmax, routes, &mut acc);
         let t0 = run.elapsed();
         let mut acc = acc.merge(w.run_cl());
         acc = acc.merge(w.run_cc());
         acc = acc.merge(w.run_ll(*stride));
         acc = acc.merge(w.run_pos());
         acc = acc.merge(w.run_contains());
-        per_tf.push(json!({"transform": tf.tag(), "lattice_half_width": n, "max_radius": rmax, "lines": w.lines.len(), "ll_second_line_stride": stride,
+        per_tf.push(json!({"transform": tf.tag(), "lattice_half_width": n, "max_radius": rmax, "lines": w.lines.len(), "ll_second_line_stride": stride, "construction_routes": routes.map(|s| json!({"circle_line": "all", "circle_circle": "all", "position": "all", "contains": "all", "line_line_every_nth_visited_second_line": s})),
                             "evaluations": acc.get(C::Evals), "exact_cl_touch": acc.get(C::ClTouch), "exact_cc_touch_inside": acc.get(C::CcTouchInside),
                             "exact_cc_touch_outside": acc.get(C::CcTouchOutside), "seconds": ((run.elapsed() - t0) * 100.0).round() / 100.0}));
         total = total.merge(acc);
@@ -2867,7 +3396,7 @@ fn main() {
     run.cov("exhaustive", true);
     run.cov(
         "rule",
-        "lattice 1: all integer centres in [-N,N]^2 x radii 1..=R, lines through all ordered pairs of distinct lattice points; circle-line = every circle x every line, circle-circle = every ordered pair of circles (both argument orders called), line-line + parallel = every ordered pair of lines, position = every circle x every lattice point, contains = every line x every lattice point. lattice 2: the same enumeration on [-N2,N2]^2 fed through rotation (3/5,4/5),(5/13,12/13),(8/17,15/17), shift by quarters, integer scale (second line of line-line cases restricted to every ll_second_line_stride-th ordered pair). Classes decided exactly in i128 on the pre-image integers. near-boundary family: EVERY exactly tangent circle-line configuration, EVERY exactly tangent ordered circle pair (inside and outside) and EVERY exact border point met by the above, in every lattice image (radii up to ~480), is fed again with one fed radius changed by each of +-1e-8, +-3e-7, +-1e-5; the sign of the change decides the class (secant/miss, crossing/separated/nested, inside/outside), the configuration is |change| away from the boundary; demanded: the kind, every returned point on both primitives within 1e-7, two returned points distinct. skew plane: coordinates in units of 2^-19; every axis-parallel line spanning the scaled lattice box with its second defining point nudged sideways by +-2^-e, both orientations, against every ordinary lattice line in both argument orders and against every skew line (parallel / crossing decided in i128; returned point on both lines within 1e-7 when the exact point is within 1e3), and contains() of all lattice points, the defining points and the un-nudged endpoint. distinct_nontrivial = enumerated configurations (each a distinct input) whose exact class is a contact: circle-line Touch/Intersect, circle-circle Same/TouchInside/TouchOutside/Intersect, non-parallel line pairs, near-boundary secants and crossing circle pairs. extreme radius ratios: every (R, r, delta, centre, direction) of the lists under ratio_family, the smaller circle's centre at distance R+r-delta, R-r+delta (crossing: kind Intersect demanded), R+r+delta, R-r-delta (separated / nested: kind None demanded) from the larger one's along the direction, both argument orders; delta >= 1e-8 = 10x the library tolerance decides the class by its sign; demanded as in the near-boundary family: kind, every returned point on both circles within 1e-7, two returned points distinct. nearly equal radii / nearly concentric: with g = 65*2^-k, every (k, ra, centre, direction/65) of the lists under eq_family (radii and centres are generic 53-bit numbers, every fed number an exact multiple of 2^-43): rb = ra-g with b's centre exactly g from a's along the direction (exact internal tangency: TouchInside demanded) and g+delta / g-delta for every listed delta <= g/2 (crossing: Intersect / nested: None, decided in i128 from the fed numbers), and centre distance exactly g with rb = ra, ra-g/2 (crossing) and ra-2g, ra-8g (nested); pairs with rb < ra/2 are not formed; both argument orders; demanded: kind, every returned point on both circles within 1e-7, two returned points distinct. nearly normalised lines: every line shape of nu_family (both public constructors Line::new and Line::between, both orientations, raw normal (p,q)*t/2^s of exactly known length 1+k*2^-s, |k| < 2h, s around 30, so lengths from 1e-6 down to 4e-12 away from 1 on both sides, every fed number verified to be an exact f64) through every listed hand-over point, against every listed circle placed exactly r = h*rho from the line on either side, with the fed radius r (exact tangency: Touch and the exact tangent point demanded), r+-delta for every delta of the extreme-ratio list and r+-r/64, r+-r/4 (Intersect / None by the sign); demanded: kind, every returned point on the circle and on the EXACT line within 1e-7, two returned points distinct; per line also contains() of exact points of the line (true), of points 1e-8..1e-5 next to it and h off it (false), and parallel / intersect_ll in both argument orders with the perpendicular through the hand-over point (that point within 1e-7) and with a parallel copy (parallel, no point). iterator protocol: EVERY result of intersect_cl / intersect_cc judged by any family (iter_results_put_through_the_iterator_protocol of them; none / one / two points counted separately) is consumed through its IntoIterator impl in every std way - for loop, next + size_hint, collect, extend, partition, count, last, nth(k) + rest, fold, for_each, reduce, find, position, all, any, max_by, min_by, skip(k), take(k), step_by, chain, zip, enumerate, peekable, fuse, filter + map, by_ref().take; with DoubleEndedIterator: next_back + size_hint, rev, rfold, rfind, nth_back(k) + rest, rev().nth/last/count/fold, j x next then alternating next_back / next in both phases; with ExactSizeIterator: len between calls, rposition; FusedIterator: None stays None; Clone: original and clone from every position, cycle; by reference if &T: IntoIterator (which of these groups the library's iterator type offers is detected at compile time, iter_ways_run_* count them); every way is run on every result of lattice 1, of the near-boundary companions, of the extreme-ratio and nearly-equal-radii families and on EVERY one-point result anywhere; the no-point and two-point results of the lattice-1 images under lattice 2 and of the nearly-normalised-lines family get the methods an iterator type implements itself (for loop, next + size_hint, count, last, nth(k) + rest, fold, next_back + size_hint, nth_back(k) + rest, rfold, mixed-end pulling, len) - and the points handed out must be the variant's points (draining ways: as a multiset; picking ways: a point of the variant, Some exactly when enough points exist; counting ways: their number; size_hint: lower <= left <= upper)",
+        "lattice 1: all integer centres in [-N,N]^2 x radii 1..=R, lines through all ordered pairs of distinct lattice points; circle-line = every circle x every line, circle-circle = every ordered pair of circles (both argument orders called), line-line + parallel = every ordered pair of lines, position = every circle x every lattice point, contains = every line x every lattice point. lattice 2: the same enumeration on [-N2,N2]^2 fed through rotation (3/5,4/5),(5/13,12/13),(8/17,15/17), shift by quarters, integer scale (second line of line-line cases restricted to every ll_second_line_stride-th ordered pair). Classes decided exactly in i128 on the pre-image integers. near-boundary family: EVERY exactly tangent circle-line configuration, EVERY exactly tangent ordered circle pair (inside and outside) and EVERY exact border point met by the above, in every lattice image (radii up to ~480), is fed again with one fed radius changed by each of +-1e-8, +-3e-7, +-1e-5; the sign of the change decides the class (secant/miss, crossing/separated/nested, inside/outside), the configuration is |change| away from the boundary; demanded: the kind, every returned point on both primitives within 1e-7, two returned points distinct. skew plane: coordinates in units of 2^-19; every axis-parallel line spanning the scaled lattice box with its second defining point nudged sideways by +-2^-e, both orientations, against every ordinary lattice line in both argument orders and against every skew line (parallel / crossing decided in i128; returned point on both lines within 1e-7 when the exact point is within 1e3), and contains() of all lattice points, the defining points and the un-nudged endpoint. distinct_nontrivial = enumerated configurations (each a distinct input) whose exact class is a contact: circle-line Touch/Intersect, circle-circle Same/TouchInside/TouchOutside/Intersect, non-parallel line pairs, near-boundary secants and crossing circle pairs. extreme radius ratios: every (R, r, delta, centre, direction) of the lists under ratio_family, the smaller circle's centre at distance R+r-delta, R-r+delta (crossing: kind Intersect demanded), R+r+delta, R-r-delta (separated / nested: kind None demanded) from the larger one's along the direction, both argument orders; delta >= 1e-8 = 10x the library tolerance decides the class by its sign; demanded as in the near-boundary family: kind, every returned point on both circles within 1e-7, two returned points distinct. nearly equal radii / nearly concentric: with g = 65*2^-k, every (k, ra, centre, direction/65) of the lists under eq_family (radii and centres are generic 53-bit numbers, every fed number an exact multiple of 2^-43): rb = ra-g with b's centre exactly g from a's along the direction (exact internal tangency: TouchInside demanded) and g+delta / g-delta for every listed delta <= g/2 (crossing: Intersect / nested: None, decided in i128 from the fed numbers), and centre distance exactly g with rb = ra, ra-g/2 (crossing) and ra-2g, ra-8g (nested); pairs with rb < ra/2 are not formed; both argument orders; demanded: kind, every returned point on both circles within 1e-7, two returned points distinct. nearly normalised lines: every line shape of nu_family (both public constructors Line::new and Line::between, both orientations, raw normal (p,q)*t/2^s of exactly known length 1+k*2^-s, |k| < 2h, s around 30, so lengths from 1e-6 down to 4e-12 away from 1 on both sides, every fed number verified to be an exact f64) through every listed hand-over point, against every listed circle placed exactly r = h*rho from the line on either side, with the fed radius r (exact tangency: Touch and the exact tangent point demanded), r+-delta for every delta of the extreme-ratio list and r+-r/64, r+-r/4 (Intersect / None by the sign); demanded: kind, every returned point on the circle and on the EXACT line within 1e-7, two returned points distinct; per line also contains() of exact points of the line (true), of points 1e-8..1e-5 next to it and h off it (false), and parallel / intersect_ll in both argument orders with the perpendicular through the hand-over point (that point within 1e-7) and with a parallel copy (parallel, no point). iterator protocol: EVERY result of intersect_cl / intersect_cc judged by any family (iter_results_put_through_the_iterator_protocol of them; none / one / two points counted separately) is consumed through its IntoIterator impl in every std way - for loop, next + size_hint, collect, extend, partition, count, last, nth(k) + rest, fold, for_each, reduce, find, position, all, any, max_by, min_by, skip(k), take(k), step_by, chain, zip, enumerate, peekable, fuse, filter + map, by_ref().take; with DoubleEndedIterator: next_back + size_hint, rev, rfold, rfind, nth_back(k) + rest, rev().nth/last/count/fold, j x next then alternating next_back / next in both phases; with ExactSizeIterator: len between calls, rposition; FusedIterator: None stays None; Clone: original and clone from every position, cycle; by reference if &T: IntoIterator (which of these groups the library's iterator type offers is detected at compile time, iter_ways_run_* count them); every way is run on every result of lattice 1, of the near-boundary companions, of the extreme-ratio and nearly-equal-radii families and on EVERY one-point result anywhere; the no-point and two-point results of the lattice-1 images under lattice 2 and of the nearly-normalised-lines family get the methods an iterator type implements itself (for loop, next + size_hint, count, last, nth(k) + rest, fold, next_back + size_hint, nth_back(k) + rest, rfold, mixed-end pulling, len) - and the points handed out must be the variant's points (draining ways: as a multiset; picking ways: a point of the variant, Some exactly when enough points exist; counting ways: their number; size_hint: lower <= left <= upper). construction routes: EVERY circle-line, circle-circle, position and contains configuration of lattice 1 and of the largest-scale image under the first shift of the first rotation (thorough tier: of each rotation; per_transform says which images) - the near-boundary companions included - and the line-line configurations of those images whose second line is every n-th visited one (n under per_transform) are run again with their operands arrived at by every other public route to the same value, listed under construction_routes (Default::default() + assignment of the public fields in either order, the constructor with other values + assignment of one or all public fields, in-place arithmetic on the public radius, assignment of the centre's own public fields, Copy / Clone of such an object, the other Line constructor, points built by default + assignment; no struct literal anywhere): every non-plain route of one operand with the other plain, and both operands by the route of equal index; a result that is bit-for-bit the plain-route result of the same configuration shares its verdict, any other result goes through the same oracle in full (route_results_differing_in_bits_judged_by_the_full_oracle) and a failure is reported under route_cl / route_cc / route_ll / route_position / route_contains",
     );
     run.cov("lattice1", json!({"half_width": n1, "max_radius": r1}));
     run.cov("lattice2", json!({"half_width": n2, "max_radius": r2, "rotations": ["3/5,4/5", "5/13,12/13", "8/17,15/17"], "shifts_in_quarters": shifts, "scales": scale_notes}));
@@ -2877,6 +3406,9 @@ fn main() {
     run.cov("ratio_family", ratio_info);
     run.cov("eq_family", eq_info);
     run.cov("nu_family", nu_info);
+    run.cov("construction_routes", json!({"circle": CIRCLE_ROUTES, "line": LINE_ROUTES, "point": POINT_ROUTES,
+        "combinations": {"circle_line": cl_combos().len(), "circle_circle": pair_combos(CIRCLE_ROUTES.len()).len(), "line_line": pair_combos(LINE_ROUTES.len()).len(), "position": with_point_combos(CIRCLE_ROUTES.len()).len(), "contains": with_point_combos(LINE_ROUTES.len()).len()},
+        "note": "in every route, `=` assigns the public field; c, r / a, b, c / x, y are the values of the judged configuration, so every route ends with the same public field values as the plain constructor (line routes 5-7: the same line within rounding)"}));
     run.cov(
         "skew_plane_min_nonzero_boundary_gap",
         json!({"parallel_sine": total.gap_skew_parallel, "contains_abs": total.gap_skew_contains, "note": "exact, from the integer coordinates; library EPS = 1e-9, required > 2e-9"}),
@@ -2897,6 +3429,7 @@ fn main() {
     run.assume("extreme-radius-ratio family: radii and the larger circle's centre are dyadic (exact); the smaller circle's centre is computed in f64 (direction cosines p/h, q/h, one multiplication and one addition per coordinate), so the fed centre distance differs from the intended R+-r+-delta by rounding of ~1e-13; the engine measures it (min_measured_distance_from_tangency) and refuses to run if it disagrees with the intended delta by more than 0.1 %, so every fed pair is >= 0.999e-8 from the tangency boundary on the side given by the sign of delta; all points of all circles have |coordinate| <= 1e3 (checked)");
     run.assume("nearly-equal-radii family: centres, radii and centre offsets are integers in units of 2^-43 below 2^53, so each f64 handed to the library is exactly that number (converted back and compared for every pair); tangent / crossing / nested is decided by comparing the squared centre distance with (ra-rb)^2 in i128 on those integers, and the distance from tangency is computed from the same integers: 0 for the tangent pairs (offset = direction * 2^-k exactly), otherwise >= 0.999e-8 = 10x the library tolerance and within 0.1 % of the intended g(1-th/2)+-delta (the engine refuses to run otherwise); all points of both circles have |coordinate| <= 1e3 (other pairs are skipped and counted); for two almost coincident circles the position of a point ALONG them is not determined to 1e-7 by the data and is not compared");
     run.assume("nearly-normalised-lines family: coefficients / defining points are dyadic rationals n/2^(s+2) whose integer numerators are checked to convert to f64 and back without change (members with an inexact number are not formed and counted), so the fed line IS p(x-x1)+q(y-y1)=0 and the raw normal's length IS 1+k/2^s; the circle's centre (quarters) is exactly r = h*rho from that line (asserted in integers); the fed radius r+dr is formed in f64 and dr re-measured exactly, |dr| >= 1e-8 = 10x the library tolerance decides the class by its sign; distances of returned points from the line are measured against the exact line, never the library's coefficients; points 'next to the line' are computed in f64 and their distance from the exact line is re-measured (min_measured_distance_of_a_next_to_the_line_point, required > 2e-9); all points of all circles and all defining points have |coordinate| <= 1e3 (other members are skipped and counted); the value of Line::dist is recorded but not judged (the property speaks of point-on-line tests, i.e. contains)");
+    run.assume("construction routes: the property quantifies over circle / line / point values; an object whose public fields were assigned is the value its public fields say, whatever constructor it started from (only bit-difference from the plain-route result triggers the full oracle, never a violation by itself); line routes that re-normalise an already normalised normal may change a, b in the last bit, which moves no point by more than ~1e-13 within the 1e3 box");
     run.assume("iterator protocol: the order in which a result hands out its two points is not part of the property and is not demanded; CircleLineIntersection is not Clone, so an equal value is put together from its public variants for each way of consuming (CircleIntersection is Copy)");
     run.assume("near-boundary and skew families demand what the property states of a returned point (on both primitives within 1e-7) and not its position along two almost coincident directions, which the data do not determine to 1e-7");
     run.assume("the 1e-7 accuracy clause is applied only where all coordinates involved are <= 1e3 (line-line intersection points beyond that are counted in skipped_out_of_domain; their kind is still checked)");
@@ -2975,6 +3508,19 @@ fn main() {
         (C::NuContainsOff, "points off nearly normalised lines"),
         (C::NuLlPoint, "crossings with nearly normalised lines"),
         (C::NuLlParallel, "parallel copies of nearly normalised lines"),
+        (C::RouteBitIdentical, "results of other construction routes"),
+        (C::RouteDiffer, "results of other construction routes that went through the full oracle (line routes that re-normalise change a last bit now and then)"),
+        (C::RouteClNone, "circle-line misses run through the construction routes"),
+        (C::RouteClTouch, "circle-line tangencies run through the construction routes"),
+        (C::RouteClIntersect, "circle-line secants run through the construction routes"),
+        (C::RouteCcNone, "disjoint circle pairs run through the construction routes"),
+        (C::RouteCcSame, "identical circles run through the construction routes"),
+        (C::RouteCcTouch, "tangent circle pairs run through the construction routes"),
+        (C::RouteCcIntersect, "crossing circle pairs run through the construction routes"),
+        (C::RouteLlParallel, "parallel line pairs run through the construction routes"),
+        (C::RouteLlPoint, "crossing line pairs run through the construction routes"),
+        (C::RoutePos, "position configurations run through the construction routes"),
+        (C::RouteContains, "contains configurations run through the construction routes"),
         (C::SkewLlParallel, "parallel pairs in the skew plane"),
         (C::SkewLlPointChecked, "skew-plane crossings within 1e3"),
         (C::SkewLlSteepFirst, "skew-plane crossings whose first line has a minor coefficient below 1e-6"),
